@@ -127,12 +127,26 @@ def make_harness(n_mut, truncation=True):
                 t = int(g.int('trunc', 1, L - 1)) if L > 1 else 1
         disc = g.flag('disconnect_after')
         rig = Rig(App)
+        # the server may still be flushing when it has decided to close: the disconnect then comes after further reads
+        late = g.flag('disconnect_deferred')
+        rig.defer_disconnect = late
         sock = rig.new_sock()
         w = {'base': bname, 'mutations': '+'.join(applied), 'truncated': not full}
         where = 'base=%s mutations=%s delivered=%d/%d bytes disconnect=%s tail=%r' % (bname, applied, t, L, disc, msg[max(0, t - 24):t])
         g.note({'base': bname, 'mutations': applied, 'delivered': t, 'of': L, 'disconnect': disc})
         try:
             settled = rig.feed(sock, msg[:t])
+            if late and rig.conn(sock).get('disconnect_pending'):
+                # bytes that arrive between the decision to close and the actual disconnect
+                more = msg[t:] if t < L else b'GET /late HTTP/1.1\r\n' + HOST + b'\r\n'
+                n_before = len(rig.requests)
+                out_before = len(rig.out(sock))
+                settled = rig.feed(sock, more) and settled
+                if len(rig.requests) != n_before:
+                    g.fail('request-event-after-close-decision', w, '%s; then %r' % (where, more[:40]))
+                if len(rig.out(sock)) != out_before:
+                    g.fail('write-after-close', w, '%s; then %r -> %r' % (where, more[:40], rig.out(sock)[out_before:out_before + 60]))
+                settled = rig.deliver_pending_disconnect(sock) and settled
             if disc:
                 settled = rig.peer_disconnect(sock) and settled
         except BaseException as e:  # noqa
@@ -181,6 +195,10 @@ def make_harness(n_mut, truncation=True):
             rejected = st['closed'] or (out and resps[0]['status'] >= 400)
             if not rejected:
                 g.fail('malformed-input-not-rejected', w, detail)
+        if applied == ['none'] * len(applied) and not full:
+            # an unmodified request that is not complete yet: nothing may be answered or dispatched
+            if out or nreq or st['closed']:
+                g.fail('premature-response', w, detail)
         if nreq > 1:
             g.fail('more-than-one-request-event', w, detail)
         if disc or st['closed']:
